@@ -13,7 +13,7 @@ def gen_script(rng, tier, focus=None):
         # a saturated pool, or behind a connect that takes a while
         stack = rng.choice(['thrift', 'thrift', 'mux'])
         neps = rng.choice([1, 1, 2])
-        steps = [['srv', ep, rng.choice(['echo', 'echo', 'delay', 'hold']), rng.choice([5, 20, 60])] for ep in range(neps)]
+        steps = [['srv', ep, rng.choice(['echo', 'echo', 'delay', 'hold', 'empty']), rng.choice([5, 20, 60])] for ep in range(neps)]
         slow = rng.random() < 0.5
         steps.append(['adv', 50])
         for _ in range(rng.choice([1, 2, 3])):
@@ -29,7 +29,7 @@ def gen_script(rng, tier, focus=None):
     stack = rng.choice(['thrift', 'mux'])
     neps = rng.choice([1, 1, 2, 3])
     steps = []
-    modes = ['echo', 'echo', 'echo', 'hold', 'drop', 'delay']
+    modes = ['echo', 'echo', 'echo', 'hold', 'drop', 'delay', 'empty']
     for ep in range(neps):
         m = rng.choice(modes)
         steps.append(['srv', ep, m, rng.choice([5, 20, 60, 200])])
@@ -188,8 +188,20 @@ def run_script(script, comp='e2e'):
                         ev('wrote', conn.tagmap.get(dtag, -1), cidn, 'discard', dtag, now())
                         tags.add('discard-sent')
 
-        def send_reply(self, conn, tag, payload):
-            rep = self.reply_bytes(payload)
+        def empty_reply_bytes(self, payload):
+            """a REPLY whose result struct carries no field at all (the caller must get a missing-result error,
+            never a value)"""
+            prot = TBinaryProtocol(TMemoryBuffer(payload))
+            name, _typ, seq = prot.readMessageBegin()
+            otr = TMemoryBuffer()
+            op = TBinaryProtocol(otr)
+            op.writeMessageBegin(name, 2, seq)
+            Hello.hi_result().write(op)
+            op.writeMessageEnd()
+            return otr.getvalue()
+
+        def send_reply(self, conn, tag, payload, empty=False):
+            rep = self.empty_reply_bytes(payload) if empty else self.reply_bytes(payload)
             if stack == 'thrift':
                 conn.feed(pack('!i', len(rep)) + rep)
             else:
@@ -199,6 +211,9 @@ def run_script(script, comp='e2e'):
         def handle(self, conn, kind, tag, payload, cid):
             if self.mode == 'echo':
                 self.send_reply(conn, tag, payload)
+            elif self.mode == 'empty':
+                tags.add('srv-empty-result')
+                self.send_reply(conn, tag, payload, True)
             elif self.mode == 'delay':
                 gevent.spawn_later(self.delay / 1000.0, self.send_reply, conn, tag, payload)
             elif self.mode == 'hold':
